@@ -77,7 +77,7 @@ func c02plan(tier string, seed int64) []run.Job {
 	nr, per := 16, 400
 	maxNodes := 5
 	if tier == "thorough" {
-		nr, per, maxNodes = 64, 500, 7
+		nr, per, maxNodes = 64, 1500, 7
 	}
 	for i := 0; i < nr; i++ {
 		// no stratification filter: termination is claimed for every memoized grammar
@@ -123,6 +123,13 @@ func init() {
 			}
 			if ret*10 < a.Counters["cases"]*8 {
 				return fmt.Sprintf("only %d of %d cases returned within the logical budget", ret, a.Counters["cases"])
+			}
+			// Runaway work (as opposed to explosively long result lists of ambiguous grammars) is rare on a healthy
+			// tree (~0.05% of the cases). Much more of it is the observable symptom of non-termination: the check
+			// cannot call that a violation (a budget is not a proof), but it must not call it "held" either.
+			runaway := a.Counters["inconclusive:budget (parser calls)"] + a.Counters["inconclusive:budget (probe events)"]
+			if runaway*100 > a.Counters["cases"] {
+				return fmt.Sprintf("%d of %d cases exhausted the call/event budget (possible non-termination)", runaway, a.Counters["cases"])
 			}
 			return ""
 		},
